@@ -1,11 +1,11 @@
 SPECIFICATION Spec
 CONSTANTS
-  Ints <- WideInts
-  Strs <- WideStrs
-  Tags <- WideTags
-  MaxStack = 2
-  MaxNodes = 3
+  Ints <- KeyInts
+  Strs <- KeyStrs
+  Tags <- DeepTags
+  MaxStack = 4
+  MaxNodes = 5
   MaxDepth = 2
-  MaxArr = 2
-  MaxPairs = 1
+  MaxArr = 0
+  MaxPairs = 2
 INVARIANTS TypeOK RoundTrip SelfDelimiting NoItemIsAPrefix PrefixFree CanonicalEncoding ReEncode HeadIsShortest WrapIsExact
